@@ -17,19 +17,24 @@ CONSTANT TraceFile
 Kinds == {"T1", "T2", "err", "cerr"}
 Seqs(S, n) == UNION {[1..k -> S] : k \in 0..n}
 Count(q, x) == Cardinality({i \in DOMAIN q : q[i] = x})
-Descs == { [rs |-> rs, nonnil |-> nn, fail |-> f] :
+\* tnil: a non-nil "err" result is an error interface holding a nil pointer (a non-nil error all the same)
+\* once: the function is a run-once function;  second: the observed call is the second call of the function
+\* object (with fail: the first call was given the missing input and succeeded, the observed one is not)
+Descs == { [rs |-> rs, nonnil |-> nn, fail |-> f, tnil |-> tn, once |-> o, second |-> sc] :
              rs \in {q \in Seqs(Kinds, 3) : Count(q, "T1") <= 1 /\ Count(q, "T2") <= 1 /\ Count(q, "cerr") <= 1},
-             nn \in [1..3 -> BOOLEAN], f \in BOOLEAN }
-Canon(d) == \A i \in 1..3 : (i > Len(d.rs) \/ d.rs[i] \in {"T1", "T2"}) => d.nonnil[i]   \* irrelevant flags fixed
+             nn \in [1..3 -> BOOLEAN], f \in BOOLEAN, tn \in BOOLEAN, o \in BOOLEAN, sc \in BOOLEAN }
+Canon(d) == /\ \A i \in 1..3 : (i > Len(d.rs) \/ d.rs[i] \in {"T1", "T2"}) => d.nonnil[i]   \* irrelevant flags fixed
+            /\ d.tnil => \E i \in DOMAIN d.rs : d.rs[i] = "err" /\ d.nonnil[i]
+            /\ d.once => d.second
 
-Tok(d, i) == IF d.rs[i] \in {"T1", "T2"} \/ d.nonnil[i] THEN i ELSE 0
+Tok(d, i) == IF d.rs[i] \in {"T1", "T2"} \/ (d.nonnil[i] /\ ~(d.tnil /\ d.rs[i] = "err")) THEN i ELSE 0
 HasErr(d) == Len(d.rs) > 0 /\ d.rs[Len(d.rs)] = "err"
 Expected(d) ==
   IF d.fail THEN [len |-> 0, outs |-> <<>>, errnil |-> FALSE, errtok |-> 0, resolved |-> FALSE]
   ELSE LET n == IF HasErr(d) THEN Len(d.rs) - 1 ELSE Len(d.rs) IN
        [len |-> n, outs |-> [i \in 1..n |-> Tok(d, i)],
         errnil |-> ~(HasErr(d) /\ d.nonnil[Len(d.rs)]),
-        errtok |-> IF HasErr(d) /\ d.nonnil[Len(d.rs)] THEN Len(d.rs) ELSE 0, resolved |-> TRUE]
+        errtok |-> IF HasErr(d) /\ d.nonnil[Len(d.rs)] /\ ~d.tnil THEN Len(d.rs) ELSE 0, resolved |-> TRUE]
 
 \* ---- enumeration
 VARIABLES d, l, rec
